@@ -355,6 +355,32 @@ def _is_path(prog: Program, resolver: Resolver, fi, it: ast.AST) -> bool:
     return False
 
 
+LOSSY = {"int", "float", "round", "abs", "Decimal", "Fraction", "math.floor", "math.ceil", "math.trunc", "floor", "ceil", "trunc"}
+
+
+def cli_magnitudes_verbatim(rep: Report, prog: Program) -> None:
+    """R10.9: the table the command line prints shows each converted magnitude as str(magnitude), padded.  A printed value
+    that went through int()/float()/round()/abs() is another value: int("-0") is 0, so -0.5556 degC (31 degF) prints as
+    0.5556; a rounded one hides the offset's digits."""
+    q = "cli.dot_aligned"
+    if q not in prog.functions:
+        rep.ok("R10.9", "cli", note="no dot_aligned in the CLI")
+        return
+    fi = prog.func(q)
+    bad = [c for c in ast.walk(fi.node) if isinstance(c, ast.Call) and ast.unparse(c.func) in LOSSY]
+    spec = [v for v in ast.walk(fi.node) if isinstance(v, ast.FormattedValue) and v.format_spec is not None
+            and any(ch in ast.unparse(v.format_spec) for ch in "defgn%")]
+    yields = [y for y in ast.walk(fi.node) if isinstance(y, (ast.Yield, ast.Return)) and y.value is not None]
+    strs = any(isinstance(c, ast.Call) and ast.unparse(c.func) in ("str", "map") and (ast.unparse(c.func) == "str" or (c.args and ast.unparse(c.args[0]) == "str"))
+               for c in ast.walk(fi.node)) or any(isinstance(v, ast.FormattedValue) for v in ast.walk(fi.node))
+    rep.check("R10.9", f"{q}:verbatim", not bad and not spec and bool(yields) and strs,
+              (f"{q} passes (part of) a magnitude through `{ast.unparse(bad[0])[:40]}`" if bad else
+               f"{q} formats a magnitude with the numeric format `{ast.unparse(spec[0].format_spec)[:20]}`" if spec else
+               f"{q} no longer prints str(magnitude)") +
+              ": the printed equivalent is not the converted value (a sign, a digit or an exponent can be lost: 31 degF prints as 0.5556 degC)",
+              fi.where(bad[0] if bad else (spec[0] if spec else None)))
+
+
 def run(rep: Report) -> None:
     prog = Program()
     resolver = Resolver(prog)
@@ -390,5 +416,7 @@ def run(rep: Report) -> None:
     rep.rule("R07.9", "no assert in the package does part of a definition or a conversion (python -O would drop it: a scale registered inside an "
              "assert has no zero point in optimised mode) - shared with C07", floor=1)
     effect_free_asserts(rep, prog, resolver, "R07.9")
+    rep.rule("R10.9", "the command line prints each converted magnitude verbatim (str, padded): no int / float / round / abs and no numeric format on it", floor=1)
+    cli_magnitudes_verbatim(rep, prog)
     rep.not_decided.append("floating-point rounding of round trips")
     rep.trust("E5 declaration model; mypy 2.3.1 expression types (translate analysis)")
